@@ -171,6 +171,13 @@ def run(ctx):
     for ap, b in seeds[:ctx.scale(400, 5000)]:
         for t in (b"\x00", b"\x18\x0a\x00\x00", KEEPALIVE, b"\xff" * 5):
             cases.append({"op": "dec", "ap": ap, "bytes": b + t})
+    # NEXT_HOP of every length 0..20 (the decoder takes 4 and 16 octets) in an otherwise well-formed UPDATE
+    for L in range(21):
+        at = bytes([0x40, 1, 1, 0, 0x40, 2, 6, 2, 1, 0, 0, 0xfd, 0xe9, 0x40, 3, L]) + bytes((7 * i + 1) & 255 for i in range(L))
+        body = bytes([0, 0, len(at) >> 8, len(at) & 255]) + at + bytes([8, 10])
+        m = bytes([255] * 16) + bytes([(19 + len(body)) >> 8, (19 + len(body)) & 255, 2]) + body
+        cases.append({"op": "dec", "ap": False, "bytes": m})
+        cases.append({"op": "fuzz", "ap": False, "as2": False, "bytes": m})
     # minimised inputs of earlier findings: run on every change
     for h in CORPUS:
         for ap in (False, True):
